@@ -27,7 +27,11 @@ def build_factory(cfg):
     def build(chooser, log):
         from syne_tune import Tuner, StoppingCriterion
         R = cfg["R"]
-        sched, info = scheds.make(cfg["kind"], mode=cfg["mode"], seed=cfg["seed"], R=R, mra=cfg.get("mra", True))
+        space = None
+        if cfg.get("grid_size"):
+            from syne_tune.config_space import choice
+            space = {"a": choice([round(0.1 + 0.15 * i, 2) for i in range(cfg["grid_size"])])}
+        sched, info = scheds.make(cfg["kind"], mode=cfg["mode"], seed=cfg["seed"], R=R, mra=cfg.get("mra", True), space=space)
         tunerx.wrap_scheduler(sched, log)
         sign = 1.0 if cfg["mode"] == "min" else -1.0
         extra = None
@@ -55,7 +59,7 @@ def build_factory(cfg):
 def ctx_of(cfg):
     if cfg.get("sim"):
         return "sim"
-    return f"{cfg['kind']}/W{cfg['W']}" + ("/ask-backend" if not cfg.get("nodelay", True) else "") + ("" if cfg.get("mra", True) else "/nomra")
+    return f"{cfg['kind']}/W{cfg['W']}" + (f"/grid{cfg['grid_size']}" if cfg.get("grid_size") else "") + ("/ask-backend" if not cfg.get("nodelay", True) else "") + ("" if cfg.get("mra", True) else "/nomra")
 
 
 def label(cfg):
@@ -131,6 +135,14 @@ def configs(tier, seed):
                 out.append(dict(kind=kind, W=W, R=4, mode="min", seed=seed, profile=prof, k=1 if tier == "quick" else 2,
                                 stop={"max_num_trials_started": 10}, F=1, faults=("crash", "ext_stop"), wait=True, mra=(W == 2),
                                 max_exec=120 if tier == "quick" else 2500, loop_cap=400, **{"async": True}))
+    # finite search space whose size is not a multiple of n_workers: the space is used up in the middle of a batch of free
+    # workers; the trials started earlier in that batch still have to be polled, reported and ended
+    for W in (2, 3):
+        for gs in (W + 1, 2 * W - 1):
+            for prof in (tunerx.PROFILES[0], tunerx.PROFILES[5], tunerx.PROFILES[7]):
+                out.append(dict(kind="fifo-grid", W=W, R=2, mode="min", seed=seed, profile=prof, k=1 if tier == "quick" else 2,
+                                stop={"max_num_trials_started": 40}, F=0, faults=("crash",), wait=True, mra=False, grid_size=gs,
+                                max_exec=150 if tier == "quick" else 2500, **{"async": True}))
     # the real simulator backend (tables, delays, outside-time choices): a sample of the C10 configurations
     from . import c10
     sims = c10.configs(tier, seed)
